@@ -114,11 +114,12 @@ func (cons *VgaTextConsole) Fill(x, y, width, height uint32, fg, bg uint8) {
 		y = cons.height
 	}
 
-	if x+width-1 > cons.width {
+	// clip the extent without overflowing on large width/height values
+	if width > cons.width-x+1 {
 		width = cons.width - x + 1
 	}
 
-	if y+height-1 > cons.height {
+	if height > cons.height-y+1 {
 		height = cons.height - y + 1
 	}
 
